@@ -35,6 +35,11 @@ pub const MUTATORS: &[(&str, &str)] = &[
     ("exec-stdout", "exec >/dev/null"),
     ("exec-close", "exec 4>&-"),
     ("exit", "exit 3"),
+    // `exec` with a command replaces the SUBSHELL only (every option form)
+    ("exec-cmd", "exec vtrue"),
+    ("exec-a-cmd", "exec -a nm vtrue"),
+    ("exec-c-cmd", "exec -c vtrue"),
+    ("exec-l-cmd", "exec -l vtrue"),
     ("export", "export pv"),
     ("export-new", "export NE=1"),
     ("readonly", "readonly pv"),
@@ -290,7 +295,7 @@ pub fn run(tier: Tier, replay: Option<Value>) -> ! {
             }
         }
     }
-    let cfg = PoolCfg::new("c12").timeout_ms(20_000);
+    let cfg = PoolCfg::new("c12").timeout_ms(6_000);
     let bytes: Vec<Vec<u8>> = cases.iter().map(|(s, _, m)| json!({"s": s, "mode": PARENT_MODES[*m].1}).to_string().into_bytes()).collect();
     let outs = pool::run(&cfg, &bytes);
     for (i, o) in outs.iter().enumerate() {
